@@ -1,8 +1,28 @@
 """C19  Label helpers agree with the wire-format label sequence of every name.
 
-MC      MC_Names (helper definitions mutually consistent on the small universe)
-GEN     Gen_Names modes names / pairs -> harness `names replay`
-TV      harness `names record c19` (random long names, related pairs) -> Trace_Names
+MC      MC_Names (helper definitions mutually consistent on the small universe; SteppersFromStarts: the steppers
+        computed from one parse of the text, which the vectors and the trace judge use, equal NextLabelSpec/PrevLabelSpec)
+GEN     Gen_Names -> harness `names replay`; the expected values are TLC's:
+          names     every name over octets {a A 0 . \\ 0x00 0xc8} with sum(len+1) <= N, in the library's spelling:
+                    CountLabel, Split, SplitDomainName, PrevLabel, NextLabel, Fqdn, IsFqdn, CanonicalName, also on
+                    the relative spelling                                     [mutants nextlabel-parity, prevlabel-parity]
+          texts     every valid text of <= N symbols over {a A 0 . \\ \\. \\200} in any escape spelling
+          etexts    every valid text of <= N symbols over {a 0 . \\ \\046 \\092 \\048 \\\\ \\.}: the \\DDD spelling of '.', '\\'
+                    and a digit is an octet of a label for every helper (neighbour of seed C03-16)
+          pairs     every ordered pair of such names: CompareDomainName both ways, IsSubDomain, relative
+                    spellings, dnsutil.AddOrigin / TrimDomainName             [mutants compare-root, equal-overfold]
+          octpairs  every octet against the octet differing in bit 0x20 only  [mutant equal-overfold]
+          crowdhelpers  the valid names at the maximal label COUNT (127-N..127 labels of one octet, up to 2N of them of
+                    two, wire length 250..255, five fills): the helpers index the labels of a name, and no other
+                    universe has more than a dozen labels                      [seed C19-16: Split capped at 126 offsets]
+          crowdpairs    each such name against itself, its parent (both ways), its case-flipped self, a sibling, and
+                    names sharing none / half of its labels                   [seed C19-16]
+TV      harness `names record c19` -> Trace_Names (TLC judges each event)
+          helpers   random names up to 255 octets over all octet values (1 in 10 crowded: one-octet labels as many
+                    as fit, up to 127), fully qualified or relative
+          compare   pairs sharing a case-flipped suffix (1 in 10: a crowded name against a suffix / sibling)
+Mutants (checks/mutants/C19): the four above; countlabel-cap (CountLabel stops at 126: crowdhelpers, crowdpairs through
+IsSubDomain, helpers events), nextlabel-ddd-dot (NextLabel takes \\046 for a separator: etexts).
 """
 import vp
 from checks import c03
@@ -10,23 +30,34 @@ from checks import c03
 
 def run(ctx):
     binp = ctx.build("names")
+    gen, tv, gen_jobs, tv_jobs = c03.gen, c03.tv, c03.gen_jobs, c03.tv_jobs
     if ctx.quick:
-        ctx.tlc("MC_Names", consts=c03.SMALL, timeout=900)
-        c03.gen(ctx, binp, "names", 5, 1, [0])
-        c03.gen(ctx, binp, "texts", 5, 2, [0, 1])
-        c03.gen(ctx, binp, "pairs", 3, 2, [0, 1])
-        c03.gen(ctx, binp, "octpairs", 0, 1, [0])
-        c03.tv(ctx, binp, "c19", 400, 4)
+        # the stages are independent of each other: one pool, the long ones first
+        jobs = [lambda: ctx.tlc("MC_Names", consts=c03.SMALL, timeout=900)]
+        jobs += tv_jobs(ctx, binp, "c19", 400, 4)
+        jobs += gen_jobs(ctx, binp, "texts", 5, 2, [0, 1])
+        jobs += gen_jobs(ctx, binp, "names", 5, 1, [0])
+        jobs += gen_jobs(ctx, binp, "pairs", 3, 2, [0, 1])
+        jobs += gen_jobs(ctx, binp, "etexts", 4, 1, [0])
+        jobs += gen_jobs(ctx, binp, "crowdhelpers", 2, 1, [0])
+        jobs += gen_jobs(ctx, binp, "crowdpairs", 2, 1, [0])
+        jobs += gen_jobs(ctx, binp, "octpairs", 0, 1, [0])
+        vp.parallel(jobs, maxpar=c03.QUICK_PAR)
     else:
         ctx.tlc("MC_Names", timeout=1800)
-        c03.gen(ctx, binp, "names", 7, 16, range(16))
-        c03.gen(ctx, binp, "texts", 7, 16, range(16))
-        c03.gen(ctx, binp, "pairs", 4, 16, range(16))
-        c03.gen(ctx, binp, "octpairs", 0, 1, [0])
-        c03.tv(ctx, binp, "c19", 3000, 16)
+        gen(ctx, binp, "names", 7, 16, range(16))
+        gen(ctx, binp, "texts", 7, 16, range(16))
+        gen(ctx, binp, "etexts", 6, 16, range(16))
+        gen(ctx, binp, "pairs", 4, 16, range(16))
+        gen(ctx, binp, "octpairs", 0, 1, [0])
+        gen(ctx, binp, "crowdhelpers", 8, 8, range(8))
+        gen(ctx, binp, "crowdpairs", 8, 8, range(8))
+        tv(ctx, binp, "c19", 3000, 16)
     ctx.assumptions += ["names are in the library's presentation form (what UnpackDomainName / Present produce), fully qualified or with the final dot removed"]
-    return ctx.finish(rule="vectors: every name over octets {a A 0 . \\ 0x00 0xc8} with sum(len+1) <= N every valid TEXT over symbols {a A 0 . \\ \\. \\200} up to N symbols in any escape spelling, and every ordered pair up to the "
-                      "pair bound; events: random names up to 255 octets over all octet values, pairs sharing a case-flipped suffix. "
+    return ctx.finish(rule="vectors: every name over octets {a A 0 . \\ 0x00 0xc8} with sum(len+1) <= N every valid TEXT over symbols {a A 0 . \\ \\. \\200} and over {a 0 . \\ \\046 \\092 \\048 \\\\ \\.} up to N symbols in any escape spelling, and every ordered pair up to the "
+                      "pair bound; the valid names of 127-N..127 labels of 1-2 octets (wire length 250..255) x 5 fills, each against itself, its parent, "
+                      "its case-flipped self, a sibling and names sharing none / half of its labels; events: random names up to 255 octets "
+                      "over all octet values incl. names of up to 127 one-octet labels, pairs sharing a case-flipped suffix. "
                       "distinct = distinct texts / pairs; all are non-trivial (at least one helper result compared)")
 
 
